@@ -56,7 +56,7 @@ def _run(rp, chunks: List[bytes]):
     return rec, refusal, state
 
 
-def _reference(stream: bytes):
+def _reference(stream: bytes, MAX: int = MAX):
     """Functional reference: what a stream means, independent of any chunking."""
     rec: List[bytes] = []
     pos = 0
@@ -94,10 +94,10 @@ def _same(a, b) -> bool:
     return True
 
 
-def _all_cuts_agree(rp, stream: bytes, twin: bool) -> bool:
+def _all_cuts_agree(rp, stream: bytes, twin: bool, mx: int = MAX) -> bool:
     L = len(stream)
     whole = _run(rp, [stream])
-    ref = _reference(stream)
+    ref = _reference(stream, mx)
     if twin:
         return not (len(whole[0]) >= 1)     # twin: a run that delivers a message must be reachable
     if not _same(whole, ref):
@@ -110,7 +110,7 @@ def _all_cuts_agree(rp, stream: bytes, twin: bool) -> bool:
     return True
 
 
-def free(L: int, twin: bool = False, real: bool = False):
+def free(L: int, limit: int = MAX, twin: bool = False, real: bool = False):
     rp = _env()
 
     def check_free(b: bytes) -> bool:
@@ -119,7 +119,12 @@ def free(L: int, twin: bool = False, real: bool = False):
         """
         if len(b) != L:
             return True
-        return _all_cuts_agree(rp, b, twin)
+        saved = rp.MAX_MESSAGE_SIZE
+        rp.MAX_MESSAGE_SIZE = limit
+        try:
+            return _all_cuts_agree(rp, b, twin, limit)
+        finally:
+            rp.MAX_MESSAGE_SIZE = saved
 
     return check_free, {"b": (b"MAJI\x00\x00\x00\x01Zxyz" + b"q" * L)[:L]}
 
@@ -127,8 +132,11 @@ def free(L: int, twin: bool = False, real: bool = False):
 KINDS = ("ok", "badmagic", "overlimit", "truncated")
 
 
-def structured(kinds: Tuple[str, ...], plens: Tuple[int, ...], twin: bool = False, real: bool = False):
+def structured(kinds: Tuple[str, ...], plens: Tuple[int, ...], limit: int = MAX, twin: bool = False, real: bool = False):
+    """limit: the size limit the receiver runs with. The code is parametric in MAX_MESSAGE_SIZE; with a small value, messages AT
+    the limit (and one byte over) lie inside the bound on stream length, together with what follows them in the same read."""
     rp = _env()
+    MAXL = limit
     nsym = 0
     for k, p in zip(kinds, plens):
         nsym += p + (1 if k == "badmagic" else 0) + (1 if k == "overlimit" else 0)
@@ -142,7 +150,7 @@ def structured(kinds: Tuple[str, ...], plens: Tuple[int, ...], twin: bool = Fals
         for v in vs:
             if not (0 <= v <= 255):
                 return True
-        if not (MAX < over <= 0xFFFFFFFF):
+        if not (MAXL < over <= 0xFFFFFFFF):
             return True
         i = 0
         stream = b""
@@ -162,9 +170,14 @@ def structured(kinds: Tuple[str, ...], plens: Tuple[int, ...], twin: bool = Fals
                 stream += b"MAJI" + bytes([(over >> 24) & 0xFF, (over >> 16) & 0xFF, (over >> 8) & 0xFF, over & 0xFF]) + payload
             else:  # truncated: announces one byte more than is present
                 stream += b"MAJI" + (p + 1).to_bytes(4, "big") + payload
-        return _all_cuts_agree(rp, stream, twin)
+        saved = rp.MAX_MESSAGE_SIZE
+        rp.MAX_MESSAGE_SIZE = MAXL
+        try:
+            return _all_cuts_agree(rp, stream, twin, MAXL)
+        finally:
+            rp.MAX_MESSAGE_SIZE = saved
 
-    return check_structured, {"vs": [7] * nsym, "over": MAX + 1}
+    return check_structured, {"vs": [7] * nsym, "over": MAXL + 1}
 
 
 def boundary(twin: bool = False, real: bool = False):
@@ -196,6 +209,8 @@ def obligations(tier: str, known: List[str]) -> List[Ob]:
     for L in range(0, (15 if thorough else 11)):
         obs.append(Ob("free[len=%d]" % L, C_1 + "; " + C_2, "free", {"L": L}, timeout=600 if thorough else 240))
     obs.append(twin_of(obs[9]))
+    for L in ((9, 10, 11, 12, 13) if thorough else (10, 11)):
+        obs.append(Ob("free[len=%d,limit=2]" % L, C_1 + "; " + C_2, "free", {"L": L, "limit": 2}, timeout=600 if thorough else 240))
     obs.append(Ob("limit-boundary", C_2, "boundary", {}, timeout=120))
     obs.append(twin_of(obs[-1]))
     shapes: List[Tuple[Tuple[str, ...], Tuple[int, ...]]] = []
@@ -211,6 +226,12 @@ def obligations(tier: str, known: List[str]) -> List[Ob]:
         obs.append(Ob("frames[%s;payload=%s]" % ("+".join(ks), ",".join(map(str, pl))), C_1 + "; " + C_2, "structured",
                       {"kinds": ks, "plens": pl}, timeout=600 if thorough else 240))
     obs.append(twin_of(obs[-1]))
+    # messages exactly at the size limit followed by more data in the same read (limit patched to 3 bytes)
+    small = [(("ok", "ok"), (3, 1)), (("ok", "ok"), (3, 3)), (("ok", "overlimit"), (3, 0)), (("ok", "ok", "ok"), (2, 3, 0)),
+             (("ok", "truncated"), (3, 2)), (("ok", "badmagic"), (3, 1))]
+    for ks, pl in small:
+        obs.append(Ob("frames-at-the-limit[limit=3;%s;payload=%s]" % ("+".join(ks), ",".join(map(str, pl))), C_1 + "; " + C_2, "structured",
+                      {"kinds": ks, "plens": pl, "limit": 3}, timeout=600 if thorough else 240))
     return obs
 
 
